@@ -29,4 +29,52 @@ theorem cutoff_partial (cfg : Cfg) (i : In) (c : Nat) (_h : cutoff cfg i = some 
   simp [setupOk, restorerSeed, this, hp]
   omega
 
+/-- Disk state after a run that finished the pruner (whether or not the runner recorded it): every
+kept block has its history in the live buckets, the scratch namespace is empty. -/
+def Finished (c h : Nat) (d : Disk) : Prop := d.scratch = [] ∧ ∀ b, c ≤ b → b ≤ h → b ∈ d.live
+
+theorem mem_window {l : List Nat} {lo h b : Nat} (hb : b ∈ l) (h1 : lo ≤ b) (h2 : b ≤ h) :
+    b ∈ l.filter (fun b => decide (lo ≤ b ∧ b ≤ h)) :=
+  List.mem_filter.mpr ⟨hb, by simp [h1, h2]⟩
+
+theorem finish_live (guard : Bool) (c h : Nat) (tok : Token) (d : Disk) (hs : d.scratch = []) (b : Nat)
+    (hc : c ≤ b) (hh : b ≤ h) (hb : b ∈ d.live)
+    (hok : tok.2 ≠ 0 ∨ (tok.1 ≤ h ∧ (if guard && decide (c < tok.1) && d.scratch.isEmpty then c else max c tok.1) ≤ b)) :
+    b ∈ (finish guard c h tok d).live := by
+  unfold finish
+  by_cases hr : tok.2 = 0
+  · cases hok with
+    | inl h1 => exact absurd hr h1
+    | inr h1 =>
+      simp only [hr, if_true, h1.1, hs, List.nil_append]
+      refine mem_window (mem_window hb ?_ hh) ?_ hh
+      · simpa [hs] using h1.2
+      · simp; omega
+  · simp only [hr, if_false]
+    exact List.mem_append.mpr (Or.inl hb)
+
+theorem finish_guarded_keeps (c h : Nat) (tok : Token) (d : Disk) (hd : Finished c h d)
+    (htok : tok.2 = 0 → tok.1 ≤ h) (b : Nat) (hc : c ≤ b) (hh : b ≤ h) :
+    b ∈ (finish true c h tok d).live := by
+  obtain ⟨hs, hl⟩ := hd
+  refine finish_live true c h tok d hs b hc hh (hl b hc hh) ?_
+  by_cases hr : tok.2 = 0
+  · refine Or.inr ⟨htok hr, ?_⟩
+    by_cases hcs : c < tok.1
+    · simp [hs, hcs]; exact hc
+    · simp [hcs]; omega
+  · exact Or.inl hr
+
+theorem finish_partial (guard : Bool) (c h : Nat) (tok : Token) (d : Disk) (hd : Finished c h d)
+    (hfresh : tok.1 ≤ c ∨ tok.2 ≠ 0) (b : Nat) (hc : c ≤ b) (hh : b ≤ h) :
+    b ∈ (finish guard c h tok d).live := by
+  obtain ⟨hs, hl⟩ := hd
+  refine finish_live guard c h tok d hs b hc hh (hl b hc hh) ?_
+  cases hfresh with
+  | inr h1 => exact Or.inl h1
+  | inl h1 =>
+    refine Or.inr ⟨by omega, ?_⟩
+    have hn : ¬ c < tok.1 := by omega
+    simp [hn]; omega
+
 end Juno.C18.Pruner
